@@ -257,8 +257,13 @@ V("desc-names-not-permuted", ["C06"], DS, "fire",
 V("desc-type-order", ["C06"], DS, "fire",
   (COM, "    for itg_type in (\"cell\", \"exterior_facet\", \"interior_facet\", \"vertex\", \"ridge\"):", "    for itg_type in (\"cell\", \"interior_facet\", \"exterior_facet\", \"vertex\", \"ridge\"):"))
 V("desc-otherwise-minus-two", ["C06"], DS, "fire", (REP, "sid if sid != \"otherwise\" else -1 for sid in itg_data.subdomain_id", "sid if sid != \"otherwise\" else -2 for sid in itg_data.subdomain_id"))
-V("desc-negative-ids-accepted", ["C06", "C19"], DS + ["REJECTIONS"], "fire",
-  (REP, "        if min(subdomain_ids) < -1:\n            raise ValueError(\"Integral subdomain IDs must be non-negative.\")\n", ""))
+V("desc-negative-ids-accepted", ["C06", "C19"], DS + ["REJECTIONS", "SUBDOMAIN-IDS"], "fire",
+  (REP, "        if any(sid != \"otherwise\" and sid < 0 for sid in itg_data.subdomain_id):\n            raise ValueError(\"Integral subdomain IDs must be non-negative.\")\n", ""))
+V("desc-minus-one-accepted", ["C06", "C19"], ["SUBDOMAIN-IDS"], "fire",
+  (REP, "        if any(sid != \"otherwise\" and sid < 0 for sid in itg_data.subdomain_id):", "        if any(sid != \"otherwise\" and sid < -1 for sid in itg_data.subdomain_id):"))
+V("desc-ids-benign-guard-form", ["C06", "C19"], ["SUBDOMAIN-IDS", "EVERYWHERE-ID"], "benign",
+  (REP, "        if any(sid != \"otherwise\" and sid < 0 for sid in itg_data.subdomain_id):", "        user_ids = [sid for sid in itg_data.subdomain_id if sid != \"otherwise\"]\n        if user_ids and min(user_ids) < 0:"))
+V("desc-names-not-repeated", ["C06"], ["EVERYWHERE-ID"], "fire", (REP, "        for _ in range(len(subdomain_ids)):\n            iname = integral_names[(form_id, itg_index)]", "        for _ in range(1):\n            iname = integral_names[(form_id, itg_index)]"))
 V("desc-template-missing-field", ["C06", "C20"], DS, "fire", ("ffcx/codegeneration/C/form_template.py", "  .rank = {rank},\n", ""))
 V("desc-numba-missing-attr", ["C06", "C18"], DS, "fire", ("ffcx/codegeneration/numba/form_template.py", "  num_constants = {num_constants}\n", ""))
 V("desc-slot-wrong-source", ["C06"], DS, "fire", (CFORM, "    d[\"rank\"] = ir.rank\n", "    d[\"rank\"] = ir.num_coefficients\n"))
